@@ -34,6 +34,7 @@ pub fn run_c11(args: &Args) -> Report {
     let n = total / args.shards.max(1);
     rep.rule = "generated directory trees (depth <= 3; sources of the shapes foo.ext.txtpp, foo.txtpp.ext, foo.txtpp, foo.min.js.txtpp, foo.bar.txtpp.ext; look-alikes `txtpp`, `.txtpp`, `a.txtpp.b.c`, `a.txtpp~`, `a.txt`) x input lists (`.`, directories, sources by source name or by output name, `./x`, `dir/../x`, absolute paths, duplicates, missing targets, look-alikes) x recursive on/off x build/clean, base directory different from the process cwd. Oracle (independent restatement of the rule in the harness): on success the set of outputs that exist afterwards = outputs of {named sources} + {sources directly in named directories} + (recursive: in all sub-directories) + (build: their transitive .txtpp dependencies); each output beside its source under the documented name; a named target without source is an error. Also compared with the model.".to_string();
     let mut runner = Runner::new(args, "c11");
+    let bin = args.bin.clone().unwrap_or_default();
     for i in 0..n {
         let opts = GenOpts { error_pct: 0, max_sources: 4, allow_run: false, ..GenOpts::default() };
         let _ = Act { kind: "true", arg: String::new() };
@@ -151,6 +152,14 @@ pub fn run_c11(args: &Args) -> Report {
             let _ = run_impl(&runner.dir, &RunCfg::build_all(), &runner.log);
         }
         let idx = runner.run_here(&cfg, &p.cmds, vec![format!("{}|rec={}|k={}|err={}", cfg.mode, cfg.recursive, k, expect_err)], &format!("tree #{i} inputs {:?}", inputs));
+        // a third of the cases once more through the CLI binary (argument parsing, flag mapping, exit status)
+        if bin.exists() && rng.chance(1, 3) {
+            let c = &runner.cases[idx];
+            rep.count("also-through-the-CLI");
+            if let Some(what) = crate::cli::cli_agrees(&bin, &c.before, &c.cfg, &c.imp, &runner.base_abs, &args.work.join(format!("c11cli-{}-{}", std::process::id(), args.shard))) {
+                viol(&mut rep, &runner, idx, format!("C11: inputs {:?} (recursive={}, mode {}): {what}", inputs, cfg.recursive, cfg.mode));
+            }
+        }
         let c = &runner.cases[idx];
         // expected processed set (independent restatement)
         let mut processed: BTreeSet<usize> = named.clone();
